@@ -1330,8 +1330,10 @@ class BaseImage(metaclass=ImageMeta):
         duration = self._frame_duration
         image_it = ImageIterator(self, repeat, "", cached)
         image_it._animator = image_it._animate(img, alpha, fmt, style_args)
-        cursor_up = CURSOR_UP % (lines - 1)
+        # `CSI 0 A` moves the cursor up by one line, on most terminals
+        cursor_up = CURSOR_UP % (lines - 1) if lines > 1 else ""
         cursor_down = CURSOR_DOWN % lines
+        interrupted = False
 
         try:
             print(next(image_it._animator), end="", flush=True)  # First frame
@@ -1351,8 +1353,10 @@ class BaseImage(metaclass=ImageMeta):
                 # Render next frame during current frame's duration
                 start = time.time()
         except KeyboardInterrupt:
+            interrupted = True
             self._handle_interrupted_draw()
         except Exception:
+            interrupted = True
             self._handle_interrupted_draw()
             raise
         finally:
@@ -1360,8 +1364,10 @@ class BaseImage(metaclass=ImageMeta):
             self._close_image(img)
             self._seek_position = prev_seek_pos
             # Move the cursor to the last line of the image to prevent "overlaid"
-            # output in the terminal
-            print(cursor_down, end="")
+            # output in the terminal.
+            # Not required after a complete frame, as the cursor is already there.
+            if interrupted:
+                print(cursor_down, end="")
 
     def _format_render(
         self,
